@@ -38,6 +38,9 @@ type selRewrite struct {
 
 var fileSelRewrites = map[string][]selRewrite{
 	"service/rtsp/pull_client.go": {{"net", "DialTimeout", "vnet", "ipchubverif/vnet", "DialTimeout"}},
+	// media sent over UDP (unicast players, multicast proxy) goes to a logging fake socket
+	"service/rtsp/session_roles.go":   {{"net", "ListenUDP", "vnet", "ipchubverif/vnet", "ListenUDP"}, {"net", "UDPConn", "vnet", "ipchubverif/vnet", "UDPConn"}},
+	"service/rtsp/multicast_proxy.go": {{"net", "ListenUDP", "vnet", "ipchubverif/vnet", "ListenUDP"}, {"net", "UDPConn", "vnet", "ipchubverif/vnet", "UDPConn"}},
 }
 
 // files whose "os"/"io/ioutil" imports are redirected to the logging file system
@@ -229,7 +232,9 @@ func rewriteFile(path, rel string) ([]byte, bool) {
 					id.Name = rw.newName
 					se.Sel.Name = rw.newSel
 					addImports[rw.newName] = rw.newPath
-					keepUsed = append(keepUsed, rw.pkg+"."+rw.sel)
+					if rw.sel != "UDPConn" { // a type cannot be kept alive by "var _ ="; these files use net otherwise
+						keepUsed = append(keepUsed, rw.pkg+"."+rw.sel)
+					}
 					changed = true
 				}
 			}
